@@ -128,6 +128,7 @@ MUTATIONS = {
         ('metadata', 'tonic/src/metadata/encoding.rs', r'key\.ends_with\("-bin"\)', 'key.ends_with("bin")', 'binary key suffix'),
     ],
     'C09': [
+        ('timeout', 'tonic/src/transport/service/grpc_timeout.rs', r'(pub\(crate\) fn new\(inner: S, server_timeout: Option<Duration>\) -> Self \{\s*Self \{\s*inner,\s*)server_timeout,', r'\1server_timeout: None,', 'the timeout layer forgets the configured timeout'),
         ('errmap', 'tonic/src/status.rs', r'return Some\(Status::cancelled\(timeout\.to_string\(\)\)\);', 'return Some(Status::unavailable(timeout.to_string()));', 'an expired deadline reported with another code'),
         ('errmap', 'tonic/src/status.rs', r'write!\(f, "Timeout expired"\)', 'write!(f, "Timed out")', 'the cut-off status no longer reads Timeout expired'),
         ('errmap', 'tonic/src/service/recover_error.rs', r'status\.into_http::<\(\)>\(\)', 'Status::new(crate::Code::Unknown, "").into_http::<()>()', 'the recovered status is replaced on its way out of the stack'),
